@@ -548,6 +548,8 @@ func (z *ZeroOrOneExpr) String() string {
 
 // NullableVisit recursively determines whether an object is nullable.
 func (z *ZeroOrOneExpr) NullableVisit(rules map[string]*Rule) bool {
+	// the nullable flags of the operand's sub-expressions are needed by InitialNames
+	z.Expr.NullableVisit(rules)
 	return true
 }
 
@@ -585,6 +587,8 @@ func (z *ZeroOrMoreExpr) String() string {
 
 // NullableVisit recursively determines whether an object is nullable.
 func (z *ZeroOrMoreExpr) NullableVisit(rules map[string]*Rule) bool {
+	// the nullable flags of the operand's sub-expressions are needed by InitialNames
+	z.Expr.NullableVisit(rules)
 	return true
 }
 
@@ -622,6 +626,8 @@ func (o *OneOrMoreExpr) String() string {
 
 // NullableVisit recursively determines whether an object is nullable.
 func (o *OneOrMoreExpr) NullableVisit(rules map[string]*Rule) bool {
+	// the nullable flags of the operand's sub-expressions are needed by InitialNames
+	o.Expr.NullableVisit(rules)
 	return false
 }
 
